@@ -17,7 +17,7 @@ C31  TLC enumerates token sequences of the RESP framing automaton (Resp.tla) wit
      outcome; each is sent to the binary; TLC judges the observations with RespTrace.tla
      (process alive, TotalAlloc growth bounded, well-formed input parsed into exactly its arguments).
 """
-import json, os, sys, re, subprocess, signal
+import json, os, sys, re, subprocess, signal, threading
 sys.path.insert(0, os.path.join(os.path.dirname(os.path.abspath(__file__)), "..", "lib"))
 from vlib import *
 
@@ -123,6 +123,25 @@ def patch_tlc(ctx):
         r.out = _join_wrapped(r.out)
         return r
     ctx.tlc = tlc
+
+
+class Bg:
+    """Runs fn() in a thread; .get() re-raises its exception (TLC runs overlap with driver work)."""
+    def __init__(self, fn):
+        self.res, self.exc = None, None
+        def go():
+            try:
+                self.res = fn()
+            except BaseException as e:   # noqa
+                self.exc = e
+        self.t = threading.Thread(target=go, daemon=True)
+        self.t.start()
+
+    def get(self):
+        self.t.join()
+        if self.exc is not None:
+            raise self.exc
+        return self.res
 
 
 def err_class(item):
@@ -256,19 +275,17 @@ def run_c29(ctx):
     quick = ctx.tier == "quick"
     # ---------------------------------------------------------------- M1
     mc = "MC_Redis.cfg" if quick else "MC_Redis_big.cfg"
-    m1 = ctx.tlc_or_undecided("Redis", mc, timeout=2400, coverage=False)
-    if m1.violated:
-        raise Undecided("M1: Redis.tla violates %s under %s: the reference model needs attention\n%s" % (m1.violated, mc, m1.out[-2500:]))
-    if not m1.ok:
-        raise Undecided("M1 did not complete:\n" + m1.out[-2000:])
-    ctx.log("M1 %s: %d generated, %d distinct, depth %d (%.0fs)" % (mc, m1.generated, m1.distinct, m1.depth, m1.wall))
+    ctx._specdir()
+    m1job = Bg(lambda: ctx.tlc_or_undecided("Redis", mc, timeout=2400, workers=max(2, ctx.workers - 2)))
     # ---------------------------------------------------------------- M2
     hists = []
     plan = [(12, 70, {}), (40, 24, {}), (12, 10, {"AvoidLenient": "FALSE"})] if quick else \
            [(12, 400, {}), (40, 120, {}), (100, 40, {}), (12, 60, {"AvoidLenient": "FALSE"}), (40, 20, {"AvoidLenient": "FALSE"}),
             (14, 150, {"Shorts": '{"@S1","@S2"}', "MaxNow": "3"})]
-    for n, (depth, num, over) in enumerate(plan):
-        hists += gen_hists(ctx, "Gen_Redis.cfg", num, depth, ctx.seed * 100 + n, **over)
+    jobs = [Bg(lambda n=n, depth=depth, num=num, over=over: gen_hists(ctx, "Gen_Redis.cfg", num, depth, ctx.seed * 100 + n, **over))
+            for n, (depth, num, over) in enumerate(plan)]
+    for j in jobs:
+        hists += j.get()
     extra = json.load(open(os.path.join(VERIF, "findings", "redis_replays.json")))
     for rp in extra:
         if "C29" in rp["properties"]:
@@ -311,7 +328,20 @@ def run_c29(ctx):
         order.append(s["id"]); traces.append(t)
     if slow and dropped > len(slow) // 2:
         raise Undecided("%d of %d sleep schedules missed their timing margins (machine too loaded)" % (dropped, len(slow)))
-    rejected = ctx.validate_traces("RedisPropTrace", "RedisPropTrace.cfg", traces, timeout=1500)
+    # binding self-test rides along as the last trace: one corrupted reply that must be reported
+    ctl = None
+    for t in traces:
+        idx = [i for i, e in enumerate(t) if e["e"] == "Cmd" and e["cmd"][0] in ("GET", "MGET") and e["r"] not in (["nil"], ["-ERR"])]
+        if idx:
+            ctl = [dict(e) for e in t]
+            ctl[idx[-1]] = dict(ctl[idx[-1]], r=["$zz-corrupted"])
+            break
+    if ctl is None:
+        raise Undecided("no trace with a successful read: driver is not exercising the gateway")
+    rejected = ctx.validate_traces("RedisPropTrace", "RedisPropTrace.cfg", traces + [ctl], timeout=1500)
+    if not any(r[0] == len(traces) and r[2].get("r") == ["$zz-corrupted"] for r in rejected):
+        raise Undecided("negative control accepted: the trace specification does not bind replies: " + json.dumps(ctl)[:800])
+    rejected = [r for r in rejected if r[0] < len(traces)]
     nevents = sum(len(t) for t in traces)
     ctx.log("M3: %d traces / %d events validated, %d mismatching replies, %d schedules dropped for timing" % (len(traces), nevents, len(rejected), dropped))
     known = {f["id"]: f for f in ctx.load_known()}
@@ -340,18 +370,12 @@ def run_c29(ctx):
             rp = ctx.save_replay("violation-%d.json" % sid, {"schedule": hists[sid], "sent": scheds[sid], "rejected_line": line, "event": ev,
                                                              "expected": want, "trace": traces[ti][:line + 1]})
             ctx.violation(rp, "%s: %s" % (json.dumps(ev.get("cmd", "End")), text))
-    # ------------------------------------------------------- binding self-test
-    ctl = None
-    for t in traces:
-        idx = [i for i, e in enumerate(t) if e["e"] == "Cmd" and e["cmd"][0] in ("GET", "MGET") and e["r"] not in (["nil"], ["-ERR"])]
-        if idx:
-            ctl = [dict(e) for e in t]
-            ctl[idx[-1]] = dict(ctl[idx[-1]], r=["$zz-corrupted"])
-            break
-    if ctl is None:
-        raise Undecided("no trace with a successful read: driver is not exercising the gateway")
-    if not ctx.validate_traces("RedisPropTrace", "RedisPropTrace.cfg", [ctl]):
-        raise Undecided("negative control accepted: the trace specification does not bind replies: " + json.dumps(ctl)[:1500])
+    m1 = m1job.get()
+    if m1.violated:
+        raise Undecided("M1: Redis.tla violates %s under %s: the reference model needs attention\n%s" % (m1.violated, mc, m1.out[-2500:]))
+    if not m1.ok:
+        raise Undecided("M1 did not complete:\n" + m1.out[-2000:])
+    ctx.log("M1 %s: %d generated, %d distinct, depth %d (%.0fs, overlapped)" % (mc, m1.generated, m1.distinct, m1.depth, m1.wall))
     # -------------------------------------------------------------- evidence
     MAXS, MINS = "9223372036854775807", "-9223372036854775808"
     def nontrivial(t):
@@ -453,18 +477,10 @@ def conc_trace(sched, inits, ctrs, evs):
 def run_c30(ctx):
     quick = ctx.tier == "quick"
     # ---------------------------------------------------------------- M1
-    m1 = ctx.tlc_or_undecided("RedisConc", "MC_RedisConc.cfg", timeout=1200)
-    if m1.violated or not m1.ok:
-        raise Undecided("M1: RedisConc.tla (conflict detection on) violates %s:\n%s" % (m1.violated, m1.out[-2000:]))
-    off = ctx.tlc_or_undecided("RedisConc", "MC_RedisConc_nodetect.cfg", timeout=600)
-    if not off.violated:
-        raise Undecided("RedisConc.tla is insensitive: without conflict detection it must lose updates")
-    raft = ctx.tlc_or_undecided("RedisConc", "MC_RedisConc_raft.cfg", timeout=600)
-    ctx.log("M1 RedisConc: embedded+detect %d distinct states, holds; without detection: %s violated; raft-style read-then-write: %s"
-            % (m1.distinct, off.violated, ("%s violated" % raft.violated) if raft.violated else "holds"))
-    if raft.violated:
-        ctx.notes.append("model level only: the raft backend's read at one timestamp followed by a write transaction with a later start "
-                         "timestamp violates %s in RedisConc.tla (MC_RedisConc_raft.cfg); no raft deployment is driven by this check" % raft.violated)
+    ctx._specdir()
+    jm1 = Bg(lambda: ctx.tlc_or_undecided("RedisConc", "MC_RedisConc.cfg", timeout=1200, workers=max(2, ctx.workers // 2)))
+    joff = Bg(lambda: ctx.tlc_or_undecided("RedisConc", "MC_RedisConc_nodetect.cfg", timeout=600, workers=1))
+    jraft = Bg(lambda: ctx.tlc_or_undecided("RedisConc", "MC_RedisConc_raft.cfg", timeout=600, workers=1))
     # ---------------------------------------------------------------- M2
     nsched = 8 if quick else 60
     scheds, meta = [], []
@@ -477,7 +493,15 @@ def run_c30(ctx):
             evs.setdefault(e["s"], []).append(e)
     traces = [conc_trace(scheds[i], meta[i][0], meta[i][1], evs.get(i, [])) for i in range(nsched)]
     # ---------------------------------------------------------------- M3
-    rejected = ctx.validate_traces("RedisConcTrace", "RedisConcTrace.cfg", traces, timeout=1500)
+    ctl = [dict(e) for e in traces[0]]
+    fi = [i for i, e in enumerate(ctl) if e["e"] == "Final" and e["has"]]
+    if not fi:
+        raise Undecided("no counter survived the first run: driver is not exercising the gateway")
+    ctl[fi[0]]["v"] = "123456"
+    rejected = ctx.validate_traces("RedisConcTrace", "RedisConcTrace.cfg", traces + [ctl], timeout=1500)
+    if not any(r[0] == len(traces) for r in rejected):
+        raise Undecided("negative control accepted: the trace specification does not bind the final counter")
+    rejected = [r for r in rejected if r[0] < len(traces)]
     nevents = sum(len(t) for t in traces)
     ctx.log("M3: %d concurrent runs / %d events validated, %d contradictions" % (len(traces), nevents, len(rejected)))
     reported = set()
@@ -498,14 +522,16 @@ def run_c30(ctx):
         rp = ctx.save_replay("violation-%d.json" % ti, {"schedule": scheds[ti], "rejected_line": line, "event": ev, "expected": want,
                                                          "replies": sorted(evs.get(ti, []), key=lambda e: (e["c"], e["i"]))})
         ctx.violation(rp, text)
-    # ------------------------------------------------------- binding self-test
-    ctl = [dict(e) for e in traces[0]]
-    fi = [i for i, e in enumerate(ctl) if e["e"] == "Final" and e["has"]]
-    if not fi:
-        raise Undecided("no counter survived the first run: driver is not exercising the gateway")
-    ctl[fi[0]]["v"] = "123456"
-    if not ctx.validate_traces("RedisConcTrace", "RedisConcTrace.cfg", [ctl]):
-        raise Undecided("negative control accepted: the trace specification does not bind the final counter")
+    m1, off, raft = jm1.get(), joff.get(), jraft.get()
+    if m1.violated or not m1.ok:
+        raise Undecided("M1: RedisConc.tla (conflict detection on) violates %s:\n%s" % (m1.violated, m1.out[-2000:]))
+    if not off.violated:
+        raise Undecided("RedisConc.tla is insensitive: without conflict detection it must lose updates")
+    ctx.log("M1 RedisConc: embedded+detect %d distinct states, holds; without detection: %s violated; raft-style read-then-write: %s"
+            % (m1.distinct, off.violated, ("%s violated" % raft.violated) if raft.violated else "holds"))
+    if raft.violated:
+        ctx.notes.append("model level only: the raft backend's read at one timestamp followed by a write transaction with a later start "
+                         "timestamp violates %s in RedisConc.tla (MC_RedisConc_raft.cfg); no raft deployment is driven by this check" % raft.violated)
     # -------------------------------------------------------------- evidence
     stats = {"incr_ok": 0, "incr_err": 0, "nx_ok": 0, "nx_nil": 0, "errors": {}}
     contended = 0
@@ -603,7 +629,14 @@ def run_c31(ctx):
         kib = 0 if e["alloc"] < 0 else min((e["alloc"] + 1023) // 1024, 100000000)
         events.append({"e": "Case", "toks": c["toks"], "out": to_syms(bytes.fromhex(e["out"])), "alive": bool(e["alive"]), "allockib": kib, "sent": e["sent"]})
     traces = [events[i:i + 250] for i in range(0, len(events), 250)]
-    rejected = ctx.validate_traces("RespTrace", "RespTrace.cfg", traces, timeout=1500)
+    good = [e for e, c in zip(events, cases) if c["out"]["wf"] and not c["out"]["tail"] and c["out"]["ncmds"] > 0]
+    if not good:
+        raise Undecided("no complete well-formed request among the cases")
+    ctl = [dict(good[0], out=good[0]["out"][:-3] + ["x", "CR", "LF"]), dict(good[0], alive=False), dict(good[0], allockib=2000000)]
+    rejected = ctx.validate_traces("RespTrace", "RespTrace.cfg", traces + [ctl], timeout=1500)
+    if len({r[1] for r in rejected if r[0] == len(traces)}) != 3:
+        raise Undecided("negative controls accepted (corrupted reply / dead process / 2 GiB allocation)")
+    rejected = [r for r in rejected if r[0] < len(traces)]
     ctx.log("%d cases sent to the binary, %d judged failing, gateway died %d times" % (len(events), len({(r[0], r[1]) for r in rejected}), dead))
     per = {}
     for (ti, line, ev, want) in rejected:
@@ -614,7 +647,7 @@ def run_c31(ctx):
         what = per[idx]
         txt = []
         if "dead" in what:
-            txt.append("the gateway process died")
+            txt.append("the gateway process stopped answering (no reply from its metrics endpoint for 80 s)" if e.get("unresponsive") else "the gateway process died")
         if "alloc" in what:
             txt.append("TotalAlloc grew by %d bytes for %d bytes sent (bound 1 MiB + 64 x sent)" % (e["alloc"], e["sent"]))
         if "replies" in what:
@@ -629,16 +662,6 @@ def run_c31(ctx):
             ctx.violations.append((rp, "suppressed line"))
     if shown > 40:
         print("(%d further failing cases not printed; replays are in %s)" % (shown - 40, ctx.outdir), flush=True)
-    # ------------------------------------------------------- binding self-test
-    good = [e for e, c in zip(events, cases) if c["out"]["wf"] and not c["out"]["tail"] and c["out"]["ncmds"] > 0]
-    if not good:
-        raise Undecided("no complete well-formed request among the cases")
-    c1 = dict(good[0], out=good[0]["out"][:-3] + ["x", "CR", "LF"])
-    c2 = dict(good[0], alive=False)
-    c3 = dict(good[0], allockib=2000000)
-    bad = ctx.validate_traces("RespTrace", "RespTrace.cfg", [[c1, c2, c3]])
-    if len({r[1] for r in bad}) != 3:
-        raise Undecided("negative controls accepted (corrupted reply / dead process / 2 GiB allocation): %s" % bad)
     # -------------------------------------------------------------- evidence
     def nontrivial(c):
         return (c["out"]["wf"] and c["out"]["ncmds"] > 0) or any(t in ("2147483648", "9223372036854775807") for t in c["toks"])
